@@ -543,4 +543,37 @@ class AbandonedQuery(Sub):
         return Result(viol, bool(n_live and before_release and ending != "nothing"), ["backend:" + backend, "ending:" + ending])
 
 
-SUBCHECKS = [Robust(), AsgiStack(), MidDelivery(), AbandonedQuery()]
+@st.composite
+def st_case_cg(draw):
+    # short sequences (throughput matters for a coverage-guided campaign); besides the typed-mutation grammar,
+    # free text and free JSON frames, which is where byte-level mutation has room to move
+    n = draw(st.integers(1, 6))
+    frames = []
+    for i in range(n):
+        k = draw(st.integers(0, 5))
+        if k <= 2:
+            frames.append(draw(st_frame(i)))
+        elif k == 3:
+            frames.append(draw(st.text(max_size=120)))
+        else:
+            frames.append(json.dumps([draw(st.sampled_from(["EVENT", "REQ", "CLOSE", "AUTH"]))] + draw(st.lists(json_any, min_size=1, max_size=4))))
+    return {"backend": draw(st.sampled_from(["kv", "sql"])), "auth": draw(st.sampled_from([False, False, True])),
+            "limit": draw(st.sampled_from([None, None, None, "1000/s"])), "frames": frames, "probe_at": [len(frames)],
+            "turns": draw(st.sampled_from([0, 1]))}
+
+
+class RobustCoverageGuided(Robust):
+    """The 'robust' oracle driven by libFuzzer through atheris: the fuzzer mutates the byte string Hypothesis decodes
+    into a case (fuzz_one_input) and keeps inputs that reach new edges of nostr_relay (bytecode-instrumented at import).
+    Falls back to plain Hypothesis generation when atheris could not be installed by MANIFEST.setup_cmd."""
+    name = "robust-coverage-guided"
+    mode = "cgfuzz"
+    examples = {"quick": 960, "thorough": 16000}
+    shards = {"quick": 8, "thorough": 16}
+    rule = RULE + "; engine: atheris/libFuzzer edge coverage of nostr_relay over Hypothesis' fuzz_one_input"
+
+    def strategy(self, tier):
+        return st_case_cg()
+
+
+SUBCHECKS = [Robust(), AsgiStack(), MidDelivery(), AbandonedQuery(), RobustCoverageGuided()]
